@@ -15,6 +15,7 @@ mod shared {
     pub enum Event {
         GetRedirect(String),
         PostStream,
+        ManyHeaders,
         Set(crux_http::Result<crux_http::Response<String>>),
     }
 
@@ -47,6 +48,18 @@ mod shared {
                     let reader = futures_util::io::Cursor::new(b"streamed body".to_vec());
                     let body = http_types::Body::from_reader(futures_util::io::BufReader::new(reader), None);
                     caps.http.post("http://example.com/up").body(body).expect_string().send(Event::Set);
+                }
+                Event::ManyHeaders => {
+                    caps.http
+                        .get("http://example.com/h")
+                        .header("x-a", "1")
+                        .header("x-b", "2")
+                        .header("x-c", "3")
+                        .header("x-d", "4")
+                        .header("x-e", "5")
+                        .header("x-f", "6")
+                        .expect_string()
+                        .send(Event::Set);
                 }
                 Event::Set(r) => model.got.push(format!("{r:?}")),
             }
@@ -119,6 +132,24 @@ mod tests {
         let mut model = Model::default();
         let req = app.update(Event::PostStream, &mut model).expect_one_effect().expect_http();
         assert_eq!(req.operation.body, b"streamed body".to_vec());
+    }
+
+    /// F6 (C11): "replaying the same sequence of events ... yields the same sequence of effect
+    /// requests - byte for byte once serialized ... Nothing observable depends on hash seeds":
+    /// the same event against fresh cores must give the same HTTP request, header order included.
+    #[test]
+    fn f6_the_protocol_request_does_not_depend_on_hash_seeds() {
+        let first = {
+            let app = AppTester::<App>::default();
+            let mut model = Model::default();
+            app.update(Event::ManyHeaders, &mut model).expect_one_effect().expect_http().operation.clone()
+        };
+        for _ in 0..20 {
+            let app = AppTester::<App>::default();
+            let mut model = Model::default();
+            let again = app.update(Event::ManyHeaders, &mut model).expect_one_effect().expect_http().operation.clone();
+            assert_eq!(first, again, "the same history produced two different effect requests");
+        }
     }
 
     /// F5 (C11): "values the API hands to an app or a test compare equal exactly when their
